@@ -3,11 +3,13 @@
 Space (EXHAUSTIVE in both tiers): every and/or rule tree with <= 4 leaves over <= 4 genes (16 548 trees: 1/1/3/11 shapes
 for 1..4 leaves x every and/or labelling of the internal nodes x every gene labelling of the leaves), packed `PACK` at a
 time as the rules of the reactions of one small model, so that the four genes are shared between many reactions; for
-every model every subset G of the four genes (16) and EVERY order of G (65 sequences), knocked out through
+every model every subset G of the four genes (16) and every order of G (quick: all orders of the subsets of size <= 3 = 41 sequences
+plus 6 seeded of the 24 orders of the full set; thorough: all 65 sequences), knocked out through
   * "gene"  : Gene.knock_out(), one gene at a time in that order,
   * "model" : cobra.manipulation.knock_out_model_genes(model, <G in that order>) (genes given as objects / ids / ints / mixed / with a repeat),
   * "rxn"   : Reaction.knock_out() on every reaction of the intact model, and on one reaction after the genes,
-outside a context, inside `with model:` and inside two nested contexts (first half of the knock-outs in the outer one).
+outside a context, inside `with model:` and inside two nested contexts (first half of the knock-outs in the outer one;
+the nested form alternates between the two gene entry points).
 
 Oracle: `bcc.c07_rules.holds` — an independent recursive evaluator on the generator's own tree (never cobra's parser or
 GPR.eval).  After knocking out G:
@@ -24,6 +26,7 @@ returns bounds / functional flags / solver bounds to the initial state.
 The thorough tier repeats the exhaustive part under three packings / identifier assignments / bound assignments and adds
 seeded random trees with 5-6 leaves over 5 genes (all 32 subsets, all orders of subsets of size <= 3).
 """
+import itertools
 import os
 import random
 import time
@@ -248,14 +251,21 @@ def scenarios_for(case, rng, all_orders_upto, rxn_all=True):
     k = rng.randrange(1000)
     nr = len(case.rxns)
     for G in R.subsets(case.ng):
-        for order in R.orders(G, all_orders_upto):
+        if len(G) <= all_orders_upto:
+            perms = R.orders(G, all_orders_upto)
+        else:  # larger subsets: six seeded orders
+            perms = [list(p) for p in rng.sample(list(itertools.permutations(G)), 6)]
+        for order in perms:
             for ctx in (0, 1, 2):
                 if ctx == 2 and len(order) < 2:
                     continue
                 k += 1
-                yield {"entry": "gene", "order": order, "ctx": ctx, "rxn": (k % nr) if k % 5 == 0 else None,
-                       "full": k % 3 == 0}
-                yield {"entry": "model", "order": order, "ctx": ctx, "form": forms[k % 5], "rxn": None, "full": k % 3 == 1}
+                if ctx < 2 or k % 2 == 0:
+                    yield {"entry": "gene", "order": order, "ctx": ctx, "rxn": (k % nr) if k % 5 == 0 else None,
+                           "full": k % 3 == 0}
+                if ctx < 2 or k % 2 == 1:
+                    yield {"entry": "model", "order": order, "ctx": ctx, "form": forms[k % 5], "rxn": None,
+                           "full": k % 3 == 1}
     if rxn_all:
         for j in range(nr):
             for ctx in (0, 1):
@@ -369,7 +379,7 @@ def run(tier, seed):
         trees = list(R.all_trees(4, 4))
         n_trees = len(trees)
         for spec in _specs(trees, rng, NAMESETS, (PACK, 8, 40)[rd]):
-            tasks.append((spec, rng.randrange(10 ** 9), 4))
+            tasks.append((spec, rng.randrange(10 ** 9), 3 if tier == "quick" else 4))
     n_random = 0
     if tier != "quick":
         big = [R.random_tree(rng, 6, 5) for _ in range(6000)]
@@ -408,7 +418,8 @@ def run(tier, seed):
                 "which the knocked-out set meets the rule's genes (all pairs are distinct: every tree occurs once per "
                 "round) plus the reaction knock-outs",
         "bounds": {"max_leaves": 4, "genes": 4, "trees": n_trees, "rounds": rounds, "rules_per_model": PACK,
-                   "subsets": 16, "orders": "all (65 sequences)", "entry_points": ["Gene.knock_out", "knock_out_model_genes",
+                   "subsets": 16, "orders": "all orders of every subset of size <= 3 (41 sequences) + 6 seeded of the 24 orders of the "
+                                               "full set" if tier == "quick" else "all (65 sequences)", "entry_points": ["Gene.knock_out", "knock_out_model_genes",
                                                                                   "Reaction.knock_out"],
                    "context_depths": [0, 1, 2], "random_trees_5_6_leaves_5_genes": n_random, "models": len(tasks),
                    "seconds": round(time.time() - t0, 1)},
